@@ -1,50 +1,17 @@
-(* C05 — witnesses for the recorded findings: the transcription I of goja's code does not have the
-   full-strength property at these inputs.  Each is closed by computation on an explicit witness. *)
+(* C05 — witnesses for the OPEN findings: the transcription I of goja's code does not have the
+   full-strength property at these inputs.  (F7-F10 were repaired in /repo; their witnesses are gone and
+   the full statements are proved in Proofs4.v.) *)
 From Coq Require Import ZArith Bool List SpecFloat.
 From Verif.Base Require Import F64.
 From Verif.C05 Require Import Model.
 Local Open Scope Z_scope.
 
-Definition f_negzero : jsnum := NFlt fnegzero.
-Definition f_big : jsnum := NFlt (of_Z (two63 + 2048)).          (* 2^63 + 2^11, exactly representable *)
-Definition f_tiny : jsnum := NFlt (of_Z_scaled (-1) (-60)).       (* -2^-60 *)
-
-(* F7: x++ / x-- on a float operand skips floatToValue *)
-Lemma inc_canon_refuted : exists a, canon a = true /\ wf a = true /\ canon (op_inc a) = false.
-Proof. exists f_negzero. vm_compute. auto. Qed.
-Lemma inc_canon_refuted_tiny : canon f_tiny = true /\ wf f_tiny = true /\ op_inc f_tiny = NFlt fone /\ canon (op_inc f_tiny) = false.
-Proof. vm_compute. auto. Qed.
-Lemma dec_canon_refuted : exists a, canon a = true /\ wf a = true /\ canon (op_dec a) = false.
-Proof. exists f_negzero. vm_compute. auto. Qed.
-
-(* F8: -(-0) is valueFloat(+0) *)
-Lemma neg_canon_refuted : exists a, canon a = true /\ wf a = true /\ canon (op_neg a) = false.
-Proof. exists f_negzero. vm_compute. auto. Qed.
-
-(* F9: intToValue's fallback valueFloat(i) is not canonical for i = +/-(2^53+1) *)
-Lemma intToValue_canon_refuted : exists i, canon (intToValue i) = false.
-Proof. exists (two53 + 1). vm_compute. auto. Qed.
-Lemma add_canon_refuted : exists a b, canon a = true /\ canon b = true /\ canon (op_add a b) = false.
-Proof. exists (NInt two53), (NInt 1). vm_compute. auto. Qed.
-Lemma sub_canon_refuted : exists a b, canon a = true /\ canon b = true /\ canon (op_sub a b) = false.
-Proof. exists (NInt (- two53)), (NInt 1). vm_compute. auto. Qed.
-Lemma mul_canon_refuted : exists a b, canon a = true /\ canon b = true /\ canon (op_mul a b) = false.
-Proof. exists (NInt 3), (NInt 3002399751580331). vm_compute. auto. Qed.
-
-(* F10: integer conversions of |x| >= 2^63 go through Go's int64(f) = -2^63 *)
-Lemma toInt32_refuted : exists a, canon a = true /\ wf a = true /\ toInt32 a <> ToInt32_spec (val a).
-Proof. exists f_big. vm_compute. repeat split; discriminate. Qed.
-Lemma toUint32_refuted : exists a, canon a = true /\ wf a = true /\ toUint32 a <> ToUint32_spec (val a).
-Proof. exists f_big. vm_compute. repeat split; discriminate. Qed.
-Lemma toInt16_refuted : exists a, canon a = true /\ wf a = true /\ toIntN true 16 a <> spec_modulo 16 true (val a).
-Proof. exists f_big. vm_compute. repeat split; discriminate. Qed.
-
-(* new: int * int with a zero result ignores the sign rule except for the literal pair (0,-1) *)
+(* C05-N4: int * int with a zero result ignores the sign rule except for the literal pair (0,-1) *)
 Lemma mul_zero_sign_refuted : exists a b, canon a = true /\ canon b = true /\
   num_sem (op_mul a b) <> num_sem (S_bin BMul a b).
 Proof. exists (NInt 0), (NInt (-5)). vm_compute. repeat split; discriminate. Qed.
 
-(* outside canonical form SameAs is not even symmetric: this is why every producer must normalise *)
+(* outside canonical form SameAs is not even symmetric and the hash differs: why every producer must normalise *)
 Lemma sameAs_noncanonical_asymmetric : exists a b, wf a = true /\ wf b = true /\ num_sem a = num_sem b /\
   sameAs a b = false /\ sameAs b a = true /\ hash a <> hash b.
 Proof. exists (NInt 3), (NFlt (of_Z 3)). vm_compute. repeat split; discriminate. Qed.
